@@ -10,7 +10,6 @@ from __future__ import annotations
 
 from typing import List, Optional, Tuple
 
-import aioesphomeapi.client as CL
 from aioesphomeapi import api_pb2 as PB
 from aioesphomeapi.client import APIClient
 from aioesphomeapi.model import APIVersion, UserService, UserServiceArg, UserServiceArgType
